@@ -9,7 +9,7 @@ package main
 //   peer <k> <conn> <id> <body>  requests seen by the broker peers, in order
 //   futfinal <k> <n> completed|cancelled|pending
 //   end <k>
-//   direct liveness <k> <name> ok|FAIL <what did not happen within the bound>
+//   direct liveness|stop|fifo|single_client <k> <name> ok|FAIL <what>   clauses evaluated on the implementation alone
 
 import (
 	"fmt"
@@ -82,6 +82,11 @@ func runC17(c *hx.Ctx) {
 			c.Emit("direct stop %d %s FAIL %d-futures-pending-after-the-final-Stop(true)-returned", s.id, s.name, pending)
 		} else {
 			c.Emit("direct stop %d %s ok", s.id, s.name)
+		}
+		if len(s.leaks) > 0 {
+			c.Emit("direct single_client %d %s FAIL %s", s.id, s.name, strings.Join(s.leaks, ","))
+		} else {
+			c.Emit("direct single_client %d %s ok", s.id, s.name)
 		}
 		if s.noMon {
 			// per calling goroutine, the publishes reach the peers in the order that goroutine issued them
